@@ -947,7 +947,7 @@ SPECS = {
     'C11': CaseSpec(o_c11, 'every cut point k in [0,len) of the streams of generated values (streams up to 400 bytes in the quick tier); both modes; files cut at 8 fixed and 4 (16) random points loaded through load_full, mmap, load_mem, load_mmap.'),
     'C12': CaseSpec(o_c12, 'every base residue 0..127 (all for half of the types with aligned blocks in the quick tier, 16 residues for the rest) x generated values; block list taken from the real schema.'),
     'C03': CaseSpec(o_c03, 'offsets of every borrowed part of real ε-copy results (pointer minus buffer start, printed by Show on the ε types) against the offsets of the writer blocks in the model; allocator calls and bytes during deserialize_eps for each value and for the same value with every borrowed payload repeated x4 and x16 (x2, x8, x64 thorough).'),
-    'C06': CaseSpec(o_c06, 'golden corpus (262 files written by earlier builds for the fixed corpus universe: 227 at claim time, 35 appended with the later stress definitions): re-serialization must reproduce the stored bytes, both deserializers must return the stored value, hash words must be the stored ones; plus bytes / hash feeds / digests of every generated type and value against the independent Lean encoder and XXH3 port.'),
+    'C06': CaseSpec(o_c06, 'golden corpus (333 files written by earlier builds for the fixed corpus universe: 227 at claim time, 106 appended with the later stress definitions): re-serialization must reproduce the stored bytes, both deserializers must return the stored value, hash words must be the stored ones; plus bytes / hash feeds / digests of every generated type and value against the independent Lean encoder and XXH3 port.'),
     'C09': C09Spec(o_c09, 'failing loads (8 truncation points, corrupted magic / type hash, a foreign type, garbage) and succeeding loads, repeated 12 (40) times per loader under a counting global allocator and a /proc/self/maps count; 9 probe programs (one per access path) compiled against the working tree.'),
     'C04': CaseSpec(o_c04, 'type and alignment feeds (recorded from the real type_hash / align_hash with a recording Hasher) and digests of every type of the universe, which contains for every definition without type parameters its near-miss mutants (field renamed, fields swapped, field retyped to a same-size type, copy kind toggled, repr/align changed, const renamed / value changed, variant renamed / reordered; vec / boxed slice / array / tuple variations); bytes of each type deserialized as its mutants and as other types (all near-miss pairs, 6000 sampled ordered pairs in the quick tier, all pairs in the thorough tier), both modes.'),
     'C08': C08Spec(o_c08, 'store + load_full / load_mem / load_mmap / mmap of generated values (all 8 flag sets for a quarter of the cases in the quick tier), file lengths of every residue modulo 64 (32 in the quick tier), region range through the hook, tail bytes read back, the case moved, boxed, read from 4 threads and sent to another thread; the load_full / load_mem cases again with the crate built without the mmap feature.'),
